@@ -219,6 +219,10 @@ def run(prog: Program, rep: Report, tier: str) -> None:
     c03.fractional(prog, sub)
     for o in sub.obligations:
         rep.add("R01.5", o.func, f"[{o.rule}] {o.construct}", o.verdict == "ok" if o.verdict != "undecided" else None, o.what, o.loc)
+    rep.rule("R01.6", "the stages of a scheme combine position, velocity and metric of the same particle (shared with C14 R14.7)", 1)
+    from . import align
+
+    align.report(prog, rep, "R01.6", "positions, stage velocities and dt/dx of one particle are paired")
 
     # R01.4 name map
     upd = prog.func("tracker.Tracker.update")
